@@ -25,7 +25,7 @@ Print Assumptions c17_406_refuted.
     (repaired by 0380baa). *)
 Theorem c17_charset_q0_refuted :
   exists els, q_zero s_utf8 els = true
-    /\ encode_tool Z ex_enc (ex_cfg false false true) false (Some s_text_plain) (Some els) [CText 1]
+    /\ encode_tool Z ex_enc ex_usable (ex_cfg false false true) false (Some s_text_plain) (Some els) [CText 1]
        = CChosen s_utf8 0.
 Proof. exists [el s_utf8 0; el s_star 1000]. split; vm_compute; reflexivity. Qed.
 Print Assumptions c17_charset_q0_refuted.
@@ -35,7 +35,7 @@ Print Assumptions c17_charset_q0_refuted.
     (repaired by b424a50). *)
 Theorem c17_generator_refuted :
   exists els dropped, 0 < dropped
-    /\ encode_tool Z ex_enc (ex_cfg false true false) true (Some s_text_plain) (Some els)
+    /\ encode_tool Z ex_enc ex_usable (ex_cfg false true false) true (Some s_text_plain) (Some els)
          [CText 0; CText 1] = CChosen s_utf8 dropped.
 Proof.
   exists [el s_iso 1000; el s_utf8 500], 2. split; [reflexivity|]. vm_compute. reflexivity.
@@ -45,7 +45,7 @@ Print Assumptions c17_generator_refuted.
 (** Streamed body (known finding charset:stream-unencodable): iso-8859-1 is
     announced although the second chunk cannot be encoded with it. *)
 Theorem c17_stream_refuted :
-  exists els, encode_tool Z ex_enc (ex_cfg true true true) true (Some s_text_plain) (Some els)
+  exists els, encode_tool Z ex_enc ex_usable (ex_cfg true true true) true (Some s_text_plain) (Some els)
                 [CText 0; CText 1] = CChosen s_iso 0
     /\ stream_fail Z ex_enc s_iso [CText 0; CText 1] 0 = Some 1.
 Proof. exists [el s_iso 1000; el s_utf8 500]. split; vm_compute; reflexivity. Qed.
